@@ -88,17 +88,14 @@ def main():
             # heavy shards first
             order = sorted(range(len(shards)), key=lambda i: -shards[i].get("weight", 1))
             futs = {i: ex.submit(_run_shard, (modname, shards[i], tier, seed)) for i in order}
+            # fresh-process determinism replay: the lightest shard is executed a second time in another fresh process
+            i0 = min(range(len(shards)), key=lambda i: shards[i].get("weight", 1))
+            fut2 = ex.submit(_run_shard, (modname, shards[i0], tier, seed))
             results = [futs[i].result() for i in range(len(shards))]
-        # fresh-process determinism replay of the first shard
+            r2 = fut2.result()
     crashes = [r for r in results if r.get("crash")]
     det = None
-    if getattr(mod, "REPLAY_FIRST_SHARD", True) and shards and not crashes:
-        import multiprocessing as mp
-        from concurrent.futures import ProcessPoolExecutor
-        ctx = mp.get_context("spawn")
-        i0 = min(range(len(shards)), key=lambda i: shards[i].get("weight", 1))
-        with ProcessPoolExecutor(max_workers=1, mp_context=ctx) as ex:
-            r2 = ex.submit(_run_shard, (modname, shards[i0], tier, seed)).result()
+    if shards and not crashes and not (a.inproc or jobs == 1 and len(shards) == 1):
         det = (r2.get("digest") == results[i0].get("digest"))
 
     m = report.merge(results)
